@@ -7,6 +7,7 @@ import (
 	"fmt"
 	"os"
 	"path/filepath"
+	"regexp"
 	"sort"
 	"strings"
 	"unicode/utf8"
@@ -274,7 +275,21 @@ func checkMarshalReread(res *hx.Result, current []byte, fail func(class, detail 
 		}
 		m2, err := json.Marshal(f2)
 		if err != nil || string(m1) != string(m2) {
-			fail("marshal-reread-differs", "marshal(read(marshal(read x))) differs from marshal(read x)")
+			class, where := "marshal-reread-differs", ""
+			t1, e1 := decodeGeneric(m1)
+			t2, e2 := decodeGeneric(m2)
+			if err == nil && e1 == nil && e2 == nil {
+				where = firstDifference(t1, t2, "")
+				// the member that does not survive, indices and uuids dropped: .nodes[2].router.wait.dial_limit_seconds
+				m := where
+				if i := strings.IndexAny(m, " ="); i > 0 {
+					m = m[:i]
+				}
+				m = indexInPath.ReplaceAllString(strings.TrimPrefix(m, ".nodes"), "")
+				m = regexp.MustCompile(`[0-9a-f]{8}-[0-9a-f]{4}-[0-9a-f]{4}-[0-9a-f]{4}-[0-9a-f]{12}`).ReplaceAllString(m, "<uuid>")
+				class += ":" + strings.TrimPrefix(m, ".")
+			}
+			fail(class, "marshal(read(marshal(read x))) differs from marshal(read x): "+where)
 			return
 		}
 		u1, g1 := flowGraph(f1)
@@ -642,6 +657,10 @@ func checkTemplatePositions(res *hx.Result, def []byte, fail func(class, detail 
 					where = "localization"
 				}
 				class := "13.3-template-meaning-changed:" + where
+				if p.before == p.after && where == "nodes" {
+					// the step left a template that mentions @webhook as it was: which member (indices dropped)
+					class = "13.3-template-not-rewritten:" + memberPath(p.path)
+				}
 				if prop, ok := translationWithoutBase(ma, p.item, p.prop); ok {
 					// RewriteTemplates reaches translations only through the base member they translate
 					class = "13.3-translation-without-base-not-rewritten:" + prop
@@ -652,6 +671,14 @@ func checkTemplatePositions(res *hx.Result, def []byte, fail func(class, detail 
 			}
 		}
 	}
+}
+
+var indexInPath = regexp.MustCompile(`\[[0-9]+\]`)
+
+// memberPath: nodes[2].router.wait.phone -> router.wait.phone
+func memberPath(path string) string {
+	p := indexInPath.ReplaceAllString(path, "")
+	return strings.TrimPrefix(p, "nodes.")
 }
 
 func sortedKeys(m map[string]any) []string {
